@@ -87,12 +87,15 @@ def decQualifier : Tlv → Option Qualifier
   -- a qualifier with an id only (no qualifier value) is not RFC 5280 syntax; reported as such
   | _ => none
 
+/-- PolicyInformation ::= SEQUENCE { policyIdentifier OID, policyQualifiers SEQUENCE OF PolicyQualifierInfo OPTIONAL } -/
+def decPolicyInfo : Tlv → Option (List Nat × Option (List Qualifier))
+  | .cons 0x30 [.prim 0x06 o] => (decOid o).map (·, none)
+  | .cons 0x30 [.prim 0x06 o, .cons 0x30 qs] => do pure (← decOid o, some (← qs.mapM decQualifier))
+  | _ => none
+
 def decPolicies (v : Bytes) : Option (List (List Nat × Option (List Qualifier))) :=
   match decodeDer v with
-  | some (.cons 0x30 ps) => ps.mapM fun
-    | .cons 0x30 [.prim 0x06 o] => (decOid o).map (·, none)
-    | .cons 0x30 [.prim 0x06 o, .cons 0x30 qs] => do pure (← decOid o, some (← qs.mapM decQualifier))
-    | _ => none
+  | some (.cons 0x30 ps) => ps.mapM decPolicyInfo
   | _ => none
 
 /-- AuthorityInfoAccessSyntax ::= SEQUENCE OF AccessDescription { accessMethod OID, accessLocation GeneralName } -/
